@@ -9,7 +9,7 @@ evaluation give bit-identical results by construction (selfcheck() verifies).
 import numpy as np
 
 FAMILIES = ['gauss', 'rotgauss', 'twomode', 'banana', 'halfspace', 'stairs',
-            'wrap', 'flat', 'ring']
+            'wrap', 'flat', 'ring', 'speckle']
 BLOBS = ['none', 'float', 'int', 'two', 'struct', 'multi_f32', 'array']
 PRIORS = ['fn', 'fn_inplace', 'obj', 'obj_array', 'fn_dict']
 
@@ -111,13 +111,27 @@ def _ll_ring(cols, p):
     return acc * -0.5
 
 
+def _ll_speckle(cols, p):
+    # a compact peak plus a distant lattice of tiny bumps: sparse outlying
+    # ellipsoids that the bound construction may trim away
+    best = _ll_gauss(cols, dict(mu=p['mu'], sig=p['sig']))
+    for b in p['bumps']:
+        acc = 0.0
+        for c, m in zip(cols, b):
+            d = (c - m) / p['bsig']
+            acc = acc + d * d
+        best = np.maximum(best, acc * -0.5 + p['boff'])
+    return best
+
+
 def _ll_flat(cols, p):
     return cols[0] * 0.0 + p['value']
 
 
 _LL = dict(gauss=_ll_gauss, rotgauss=_ll_rotgauss, twomode=_ll_twomode,
            banana=_ll_banana, halfspace=_ll_halfspace, stairs=_ll_stairs,
-           wrap=_ll_wrap, flat=_ll_flat, ring=_ll_ring)
+           wrap=_ll_wrap, flat=_ll_flat, ring=_ll_ring,
+           speckle=_ll_speckle)
 
 BLOB_DTYPE_USER = {
     'none': None, 'float': None, 'int': None, 'two': None,
@@ -398,7 +412,8 @@ def draw_lik_spec(rng, n_dim, family=None, blob=None, prior=None,
     if family is None:
         family = rng.choice(['gauss', 'gauss', 'rotgauss', 'twomode',
                              'twomode', 'banana', 'banana', 'halfspace',
-                             'stairs', 'wrap', 'flat', 'ring', 'ring']
+                             'stairs', 'wrap', 'flat', 'ring', 'ring',
+                             'speckle']
                             if periodic_ok else
                             ['gauss', 'rotgauss', 'twomode', 'banana',
                              'halfspace', 'stairs'])
@@ -457,6 +472,19 @@ def draw_lik_spec(rng, n_dim, family=None, blob=None, prior=None,
         p['mu'][0] = rng.choice([0.0, 0.02, 0.97])
     elif family == 'flat':
         p = dict(value=rng.choice([0.0, -3.5]))
+    elif family == 'speckle':
+        mu = centre(0.2, 0.3)
+        far = [l + wi * 0.75 for l, wi in zip(lo, w)]
+        bumps = []
+        for i in (-1, 0, 1):
+            for j in (-1, 0, 1):
+                b = list(far)
+                b[0] += i * w[0] * 0.08
+                b[1] += j * w[1] * 0.08
+                bumps.append(b)
+        p = dict(mu=mu, sig=widths(0.03, 0.06), bumps=bumps,
+                 bsig=min(w) * rng.choice([0.004, 0.008]),
+                 boff=rng.choice([0.0, -1.0]))
     elif family == 'ring':
         p = dict(mu=centre(0.45, 0.55), sig=widths(0.08, 0.2),
                  rad=min(w[0], w[1]) * rng.uniform(0.25, 0.35),
